@@ -144,7 +144,7 @@ int main(int argc, char** argv) {
       struct Len { bool arc; double v; ld s; Point<ld> p; ld a12deg; };
       std::vector<Len> L;
       for (auto& ls : lspec) { if (!T && !ls.quick) continue;
-        if (std::fabs(std::log2(1 - E.f)) > 4.5 && (ls.arc ? std::fabs(ls.v) > 180 : std::fabs(ls.v) > 2.1)) continue;   // b/a = 1/64, 64: single-circuit lengths only (oracle cost) Len l; l.arc = ls.arc; l.v = ls.arc ? ls.v : ls.v * (double)E.Q; l.s = ls.arc ? geod_ode::arc_to_dist<ld>(E.e, lat1, azi1, l.v) : (ld)l.v; L.push_back(l); }
+        if (std::fabs(std::log2(1 - E.f)) > 4.5 && (ls.arc ? std::fabs(ls.v) > 180 : std::fabs(ls.v) > 2.1)) continue; Len l; l.arc = ls.arc; l.v = ls.arc ? ls.v : ls.v * (double)E.Q; l.s = ls.arc ? geod_ode::arc_to_dist<ld>(E.e, lat1, azi1, l.v) : (ld)l.v; L.push_back(l); }
       std::vector<size_t> ord(L.size()); for (size_t i = 0; i < ord.size(); ++i) ord[i] = i;
       std::stable_sort(ord.begin(), ord.end(), [&](size_t x, size_t y) { return fabsl(L[x].s) < fabsl(L[y].s); });
       for (int dir = 1; dir >= -1; dir -= 2) {
